@@ -684,9 +684,46 @@ def _visitor_hypothesis(w, c):
     return (cc, params[0]) if params else None
 
 
+def dispatcher_obligations(w, key, c, res):
+    """Every call self.visit(x) / self.generic_visit(x) in a visitor class is read as the LIBRARY's
+    dispatcher (to visit_<Class>, else generic_visit over the fields) unless a contract is
+    registered for the class's own definition. A `visit` or `generic_visit` that the current
+    source of the class (or of a repo base class) defines WITHOUT such a contract means the
+    verified text is not the code that runs: that is an obligation, not an assumption (seed C19_h
+    added a memoising `visit` to a class whose methods were all proved against the library's)."""
+    cls_key = c.get("self")
+    cc = w.classes.get(cls_key) if cls_key else None
+    if cc is None or c.get("trusted"):
+        return
+    if not (cc.get("visit_ensures") or cc.get("visit_fn") or cc.get("base") in
+            ("NodeTransformer", "NodeVisitor")):
+        return
+    k = cls_key
+    seen = set()
+    while k is not None and k not in seen:
+        seen.add(k)
+        for m in ("visit", "generic_visit"):
+            if _defines(k, m):
+                ok = f"{k}.{m}" in w.contracts or f"{cls_key}.{m}" in w.contracts
+                ob = symex.Obligation(key, "pre", f"dispatcher:{k.split('::')[1]}.{m}-under-contract",
+                                      [], z3.BoolVal(ok), None,
+                                      note=f"{k.split('::')[1]} defines its own {m}(): calls of "
+                                      f"self.{m} are only understood through a contract for it")
+                ob.trivial = ok
+                res.obligations.append(ob)
+        k = (w.classes.get(k) or {}).get("base_key")
+    if not any(o.name.startswith("dispatcher:") for o in res.obligations):
+        ob = symex.Obligation(key, "pre", "dispatcher:library-visit", [], z3.BoolVal(True), None,
+                              note="the class and its repo bases define neither visit nor "
+                              "generic_visit: the library's dispatcher runs")
+        ob.trivial = True
+        res.obligations.append(ob)
+
+
 def dispatch_obligations(w, key, c, fnode, tree, res):
     """ast.NodeVisitor.visit dispatches a node of class X to visit_X: under the hypothesis'
     precondition and isinstance(node, X) the method's own requires must hold."""
+    dispatcher_obligations(w, key, c, res)
     hyp = _visitor_hypothesis(w, c)
     if hyp is None:
         return
